@@ -56,7 +56,11 @@ type handler1 struct {
 	topicIDsExhausted bool
 	pktBuffer         []snPkts.Packet
 	group            *errgroup.Group
+	// Transactions initiated by the client (MessageIDs chosen by the client).
 	transactions     *transactions.TransactionStore
+	// Transactions initiated by the broker or the gateway. The client and the
+	// broker choose their MessageIDs independently, hence a separate store.
+	brokerTransactions *transactions.TransactionStore
 	// for testing
 	mockupDialFunc func() net.Conn
 }
@@ -110,6 +114,8 @@ func newHandler(cfg *handlerConfig, predefinedTopics topics.PredefinedTopics,
 		predefinedTopics: predefinedTopics,
 		topicID:          util.NewIDSequence(snPkts.MinTopicAlias, snPkts.MaxTopicAlias),
 		transactions:     transactions.NewTransactionStore(),
+
+		brokerTransactions: transactions.NewTransactionStore(),
 	}
 
 	return h
@@ -327,7 +333,7 @@ func (h *handler1) handleBrokerPublish(ctx context.Context, mqPublish *mqPkts.Pu
 		// an "almost surely available" MsgID :(
 		found := false
 		for i := snPkts.MaxPacketID; i >= snPkts.MinPacketID; i-- {
-			if _, ok := h.transactions.Get(i); !ok {
+			if _, ok := h.brokerTransactions.Get(i); !ok {
 				msgID = i
 				found = true
 				break
@@ -376,7 +382,7 @@ func (h *handler1) handleBrokerPublish(ctx context.Context, mqPublish *mqPkts.Pu
 		}
 	}
 
-	h.transactions.Store(msgID, transaction)
+	h.brokerTransactions.Store(msgID, transaction)
 	return transaction.ProceedSN(nextState, snPkt)
 }
 
@@ -446,7 +452,7 @@ func (h *handler1) handleMqtt(ctx context.Context, pkt mqPkts.ControlPacket) err
 
 	// MQTT broker PUBLISH QoS 2 transaction.
 	case *mqPkts.PubrelPacket:
-		transactionx, _ := h.transactions.Get(mqPkt.MessageID)
+		transactionx, _ := h.brokerTransactions.Get(mqPkt.MessageID)
 		transaction, ok := transactionx.(*brokerPublishQOS2Transaction)
 		if !ok {
 			h.log.Error("Unexpected transaction type %T for packet: %v", transactionx, mqPkt)
@@ -877,7 +883,7 @@ func (h *handler1) handleMqttSn(ctx context.Context, pkt snPkts.Packet) error {
 	// packet with an unregistered topic => the gateway initializes
 	// registration and the client must acknowledge it.
 	case *snPkts1.Regack:
-		transactionx, _ := h.transactions.Get(snPkt.MessageID())
+		transactionx, _ := h.brokerTransactions.Get(snPkt.MessageID())
 		if transaction, ok := transactionx.(transactionWithRegack); ok {
 			return transaction.Regack(snPkt)
 		}
@@ -886,7 +892,7 @@ func (h *handler1) handleMqttSn(ctx context.Context, pkt snPkts.Packet) error {
 
 	// MQTT broker PUBLISH QoS 1 transaction.
 	case *snPkts1.Puback:
-		transactionx, _ := h.transactions.Get(snPkt.MessageID())
+		transactionx, _ := h.brokerTransactions.Get(snPkt.MessageID())
 		if transaction, ok := transactionx.(*brokerPublishQOS1Transaction); ok {
 			return transaction.Puback(snPkt)
 		}
@@ -895,7 +901,7 @@ func (h *handler1) handleMqttSn(ctx context.Context, pkt snPkts.Packet) error {
 
 	// MQTT broker PUBLISH QoS 2 transaction.
 	case *snPkts1.Pubrec:
-		transactionx, _ := h.transactions.Get(snPkt.MessageID())
+		transactionx, _ := h.brokerTransactions.Get(snPkt.MessageID())
 		if transaction, ok := transactionx.(*brokerPublishQOS2Transaction); ok {
 			return transaction.Pubrec(snPkt)
 		}
@@ -904,7 +910,7 @@ func (h *handler1) handleMqttSn(ctx context.Context, pkt snPkts.Packet) error {
 
 	// MQTT broker PUBLISH QoS 2 transaction.
 	case *snPkts1.Pubcomp:
-		transactionx, _ := h.transactions.Get(snPkt.MessageID())
+		transactionx, _ := h.brokerTransactions.Get(snPkt.MessageID())
 		if transaction, ok := transactionx.(*brokerPublishQOS2Transaction); ok {
 			return transaction.Pubcomp(snPkt)
 		}
